@@ -279,17 +279,22 @@ func runC06(c *Ctx) {
 			}
 			cl := w.closureBody(mc)
 			owner := fa.X // the allocation whose timer is set
-			for _, in2 := range cl.Blocks[0].Instrs {
+			good := func(in2 ssa.Instruction) bool {
 				call, isC := in2.(*ssa.Call)
 				if !isC || call.Call.StaticCallee() != del {
-					continue
+					return false
 				}
 				b, f, isL := fieldLoad(call.Call.Args[1])
-				if isL && f.Name() == "fiveTuple" && w.sameKey(b, owner) && w.sameKey(call.Call.Args[0], create.Params[0]) {
-					ok = true
-				} else {
+				return isL && nm(f) == "fiveTuple" && w.sameKey(b, owner) && w.sameKey(call.Call.Args[0], create.Params[0])
+			}
+			w.eachInstrDeep(cl, func(in2 ssa.Instruction) {
+				if call, isC := in2.(*ssa.Call); isC && call.Call.StaticCallee() == del && !good(in2) {
 					why = "expiry deletes " + w.key(call.Call.Args[1]) + ", not the owner's fiveTuple"
 				}
+			})
+			// unconditionally: every path through the callback (and the helpers it delegates to)
+			if must, _ := mustPassBefore(cl.Blocks[0], w.deepHit(good), func(*ssa.BasicBlock) bool { return false }); must {
+				ok = true
 			}
 			if !ok && why == "" {
 				why = "expiry closure does not call DeleteAllocation unconditionally"
@@ -367,36 +372,34 @@ func ruleDeleteAllocation(c *Ctx, rule string) {
 	fld := w.Field("allocation", "Manager", "allocations")
 	li := w.lockInfo()
 	c.Anchor(rule, "map delete")
-	okDel := false
-	var found ssa.Value
-	w.eachInstr(del, func(in ssa.Instruction) {
-		switch x := in.(type) {
-		case *ssa.Call:
-			if b, ok := x.Call.Value.(*ssa.Builtin); ok && b.Name() == "delete" {
-				if _, f, isL := fieldLoad(x.Call.Args[0]); isL && f == fld && in.Block() == del.Blocks[0] {
-					okDel = true
-				}
-			}
-		case *ssa.Lookup:
-			if _, f, isL := fieldLoad(x.X); isL && f == fld {
-				found = x
+	// every path through DeleteAllocation (and the helpers it is split into) deletes from the table
+	isDelete := func(in ssa.Instruction) bool {
+		x, ok := in.(*ssa.Call)
+		if !ok {
+			return false
+		}
+		if b, ok := x.Call.Value.(*ssa.Builtin); ok && b.Name() == "delete" {
+			if _, f, isL := fieldLoad(x.Call.Args[0]); isL && f == fld {
+				return true
 			}
 		}
-	})
+		return false
+	}
+	okDel, _ := mustPassBefore(del.Blocks[0], w.deepHit(isDelete), func(*ssa.BasicBlock) bool { return false })
 	if okDel {
-		c.OK(rule, fname(del), "map delete", w.pos(del.Pos()), "delete(m.allocations, fingerprint) in the entry block")
+		c.OK(rule, fname(del), "map delete", w.pos(del.Pos()), "delete(m.allocations, fingerprint) on every path")
 	} else {
 		c.Bad(rule, fname(del), "map delete", w.pos(del.Pos()), "the allocation is not unconditionally removed from the table")
 	}
 	c.Anchor(rule, "Close on found path")
 	okClose := false
 	why := "Close is not called"
-	w.eachInstr(del, func(in ssa.Instruction) {
+	w.eachInstrDeep(del, func(in ssa.Instruction) {
 		call, ok := in.(*ssa.Call)
 		if !ok || call.Call.StaticCallee() != closeFn {
 			return
 		}
-		recvOK := found != nil && (w.sameKey(call.Call.Args[0], found) || strings.HasPrefix(w.key(call.Call.Args[0]), w.key(found)))
+		recvOK := derivesFromTable(w, call.Call.Args[0], fld)
 		nonNil := false
 		for _, f := range w.factsAt(in) {
 			if v, isNil, ok := nilFact(f); ok && !isNil && w.sameKey(v, call.Call.Args[0]) {
